@@ -60,6 +60,24 @@ def blStep (ws : List String) : String :=
     match a.toNat?, h.toNat?, es.mapM parse with
     | some a, some h, some es => " ".intercalate ((notifyRun a h true es).map toString)
     | _, _, _ => "bad-op"
+  | "ble.services" :: a :: ms =>
+    -- messages: s:<addr>:<id>,<id>… (s:<addr>:- = none listed) | done:<addr> | err:<addr> | conn:<addr> | x:<addr>
+    let parse (w : String) : Option SMsg := match w.splitOn ":" with
+      | ["s", x, ids] => match x.toNat?, (if ids = "-" then some [] else (ids.splitOn ",").mapM String.toNat?) with
+        | some x, some ids => some ⟨.services ids, x⟩
+        | _, _ => none
+      | ["done", x] => x.toNat?.map (⟨.done, ·⟩)
+      | ["err", x] => x.toNat?.map (⟨.error, ·⟩)
+      | ["conn", x] => x.toNat?.map (⟨.conn, ·⟩)
+      | ["x", x] => x.toNat?.map (⟨.other, ·⟩)
+      | _ => none
+    match a.toNat?, ms.mapM parse with
+    | some a, some ms => match getServices a ms [] with
+      | .services ids => "services " ++ ",".intercalate (ids.map toString)
+      | .gattError => "gatt-error"
+      | .dropped => "dropped"
+      | .timeout => "timeout"
+    | _, _ => "bad-op"
   | "ble.connect" :: a :: es =>
     match a.toNat?, es.mapM parseCEv with
     | some a, some es => " ".intercalate ((cRun { address := a } es).log.map showAct)
